@@ -66,6 +66,12 @@ def c16(ctx):
         gp = props_c18.gen_program(rng)
         cf, cg = rng.choice(props_c18.CONFIGS)
         cases.append({"src": gp["src"], "media": "tsx", "rules": rng.choice(["all", ["no-unused-vars"]]), "jsx": cf, "jsxfrag": cg})
+    # rarely used media types with specifiers that suggest another one: neither entry point may infer anything from the specifier
+    for sn in sample_corpus(rng, 300 if ctx.tier == "quick" else 3000):
+        cases.append({"src": sn["src"], "media": "unknown", "rules": "all", "spec": rng.choice(["file:///v/a.ts", "file:///v/a.tsx", "file:///v/a.jsx", "file:///v/a", "file:///v/a.js"])})
+    for src in ("const x: number = 1; export { x };", "const a = <div/>;", "let y = 1 as number; y;", "debugger;", "enum E { A }", "export {};"):
+        for sp in ("file:///v/a.ts", "file:///v/a.tsx", "file:///v/a.jsx", "file:///v/a.mts", "file:///v/a", "https://x.test/m?ext=.ts"):
+            cases.append({"src": src, "media": "unknown", "rules": "all", "spec": sp})
     a = lib.run_vh("lint", cases)
     b = lib.run_vh("lint", [dict(c, entry="ast") for c in cases])
     mism, nontriv = [], set()
@@ -577,8 +583,11 @@ def c09(ctx):
             progs.append({"src": c + body, "media": rng.choice(["ts", "js"]), "rules": ["no-irregular-whitespace"], "allprefixes": True})
     for c in ["é", "漢", "😀", "“", "—"]:
         for body in ("x;", "/* " + c + " */ y;", "const s = '" + c + "';", "// " + c + "\nz;"):
-            progs.append({"src": c + body if body == "x;" else body + " " + c, "media": "ts", "rules": ["prefer-ascii"], "allprefixes": True})
+            progs.append({"src": c + body if body == "x;" else body + " " + c, "media": "ts", "rules": ["prefer-ascii"], "allprefixes": True, "force_big": c in ("é", "😀")})
     progs += [pipe.impl_case(s) for s in scs[:1000] if not s["src"].startswith("#!")]
+    for body in ("// deno-lint-ignore-file no-debugger\ndebugger;\nif (a) {}\n", "// deno-lint-ignore-file\ndebugger;\n", "// deno-lint-ignore no-debugger\ndebugger;\ndebugger;\n",
+                 "x;\u000cy; é;\n", "\u000cvar a = 1;", "\u000bfoo();", "a;\u000cb;"):
+        progs.append({"src": body, "media": "ts", "rules": ["no-debugger", "no-empty", "no-irregular-whitespace", "prefer-ascii", "ban-unused-ignore"], "allprefixes": True, "force_big": True})
     for p in progs:
         if p["src"].startswith("#!"):
             continue
@@ -595,6 +604,14 @@ def c09(ctx):
                         d["start"] += len(pre.encode()); d["end"] += len(pre.encode())
             variants.append(("prefix", len(pre.encode("utf8")), len(cases)))
             cases.append(q)
+        # very long prefixes whose end lies around 4 KiB / 8 KiB / 64 KiB (block boundaries, header windows, 16-bit offsets)
+        fb = p.pop("force_big", False)
+        if allp and not p.get("ext") and len(p["src"]) < 200 and (fb or rng.random() < 0.2):
+            LS = [4093, 4095, 4096, 4097, 8191, 8193, 65531, 65532, 65533, 65534, 65535, 65536, 65537]
+            for L in (LS if fb else rng.sample(LS, 3)):
+                for pre in ("\n" * L, "/*" + "x" * (L - 5) + "*/\n", " " * L):
+                    variants.append(("prefix", L, len(cases)))
+                    cases.append(dict(p, src=pre + p["src"]))
         if not p.get("ext"):
             variants.append(("bom", 0, len(cases)))
             cases.append(dict(p, src="﻿" + p["src"]))
